@@ -606,7 +606,11 @@ class StrategyBase(Node):
         if self._original_children_are_present:
             # if we have universe_tickers defined, limit universe to
             # those tickers
-            valid_filter = list(set(universe.columns).intersection(self._universe_tickers))
+            # keep the data's column order: going through a set made the
+            # order (and anything order-sensitive downstream, e.g. random
+            # selection) depend on the interpreter's hash seed
+            tickers = set(self._universe_tickers)
+            valid_filter = [c for c in universe.columns if c in tickers]
 
             funiverse = universe[valid_filter].copy()
 
